@@ -25,6 +25,7 @@ def run(ck: Checker):
     fifo.check_spsc(ck, 'C16-1d', m)
     fifo.check_fifo_class(ck, 'C16-1d', m)
     run_siblings(ck)
+    run_async_pairs(ck)
     # C16-4: AsyncServer.call/stream = Server.call/stream: the async server's admission and gather code are
     # instances of the same rules that are decided for the sync server under C02 / C04 / C06 / C07
     from . import server
@@ -350,3 +351,18 @@ def run_siblings(ck: Checker):
         mp = {k.arg: dotted(k.value) for k in calls[0].keywords if k.arg}
         ok = all(mp.get(k) == k for k in ('concurrency', 'return_x', 'return_exceptions')) and any(k.arg is None for k in calls[0].keywords)
         ck.ob('C16-3', f, calls[0], ok, 'parmap passes concurrency / return_x / return_exceptions / **kwargs through unchanged' if ok else f'parmap passes {mp}')
+
+
+def run_async_pairs(ck: Checker):
+    """The async producer/consumer pairs end as cleanly as their sync siblings: the C05 obligations of async_fifo_stream,
+    AsyncBuffer and SyncIter decided under C16."""
+    from . import c05
+
+    with ck.as_rule('C16-5', 'early stop and failure in the async variants: terminal item on every producer exit, vocabulary agreement, stop flag on every abnormal consumer exit, join safety, async driver (the C05-1..4/-6 obligations of async_fifo_stream, AsyncBuffer, SyncIter)', minimum=10):
+        for p in c05.pairs(ck):
+            if p.prod.is_async or p.cons.is_async:
+                c05.check_terminal_item(ck, 'C05-1', p)
+                c05.check_vocabulary(ck, 'C05-2', p)
+                c05.check_stop_flag(ck, 'C05-3', p)
+                c05.check_join_safety(ck, 'C05-4', p)
+        c05.check_async_driver(ck, 'C05-6')
